@@ -44,7 +44,7 @@ def determinism(props):
             for workers in (1, 5, 16):
                 for rep in (0, 1):
                     env = {"VERIF_SEED": str(seed), "VERIF_WORKERS": str(workers), "VERIF_DIGEST": "1", "VERIF_NO_EVIDENCE": "1",
-                           "VERIF_RUNS": str(budget.get(p, 20000)), "VERIF_ROOT": "/tmp/vr-selftest"}
+                           "VERIF_RUNS": str(budget.get(p, 20000)), "VERIF_OUT": "/tmp/vr-selftest"}
                     rc, out = sh(f"./check {p} quick", env=env, cwd=VERIF)
                     line = [l for l in out.splitlines() if l.startswith("DIGEST")]
                     if not line:
@@ -117,7 +117,7 @@ def seeded(ids):
         caught = []
         for c in checks:
             t0 = time.time()
-            rc, out = sh(f"./check {c} quick", cwd=VERIF, env={"VERIF_ROOT": "/tmp/vr-seeded", "VERIF_NO_EVIDENCE": "1"})
+            rc, out = sh(f"./check {c} quick", cwd=VERIF, env={"VERIF_OUT": "/tmp/vr-seeded", "VERIF_NO_EVIDENCE": "1"})
             invs = sorted({l.split("invariant=")[1].split()[0] for l in out.splitlines() if "invariant=" in l})
             if rc == 1:
                 caught.append(f"{c}:{'+'.join(invs)[:120]} ({time.time()-t0:.0f}s)")
